@@ -15,15 +15,6 @@ Proof. intros [A1 A2] [B1 B2]. split; congruence. Qed.
 
 Ltac sl := (split; reflexivity).
 
-Lemma sl_hp_change s u n d src : same_lists s (hp_change s u n d src).
-Proof.
-  unfold hp_change. destruct (PrimFloat.eqb _ _); [sl|]. destruct (ust u); try sl;
-  destruct (PrimFloat.ltb 0 n); sl.
-Qed.
-Lemma sl_set_hp s id a : same_lists s (set_hp s id a).
-Proof. unfold set_hp. destruct (get_unit _ _); [apply sl_hp_change|sl]. Qed.
-Lemma sl_damage_hp s id src d : same_lists s (damage_hp s id src d).
-Proof. unfold damage_hp. destruct (get_unit _ _); [apply sl_hp_change|sl]. Qed.
 Lemma sl_set_energy s id a : same_lists s (set_energy s id a).
 Proof. unfold set_energy. destruct (get_unit _ _); [|sl]. destruct (PrimFloat.eqb _ _); sl. Qed.
 Lemma sl_mod_energy s id a : same_lists s (mod_energy_fixed s id a).
@@ -33,10 +24,7 @@ Proof. unfold mod_sp. destruct (_ =? _); sl. Qed.
 Lemma sl_record_hit s d t : same_lists s (record_hit s d t).
 Proof. unfold record_hit. destruct (get_unit _ _); sl. Qed.
 Lemma sl_pop_slot s sl0 : same_lists s (snd (pop_slot s sl0)).
-Proof.
-  unfold pop_slot. destruct sl0;
-    [destruct (l_battle s)|destruct (l_action_end s)|destruct (l_hit_end s)|destruct (l_death s)]; sl.
-Qed.
+Proof. unfold pop_slot. destruct (nth (slot_ix sl0) (lslots s) []); sl. Qed.
 Lemma sl_end_attack s : same_lists s (end_attack s).
 Proof. unfold end_attack. destruct (in_attack s) as [[? ?]|]; sl. Qed.
 
@@ -45,20 +33,40 @@ Section Lists.
 
   Definition sl_runner (R : runner) : Prop := forall s self p sc s', R s self p sc = Some s' -> same_lists s s'.
 
+
+  Lemma sl_hp_change R (GR : sl_runner R) s u n d src s' : hp_change cfg R s u n d src = Some s' -> same_lists s s'.
+  Proof.
+    unfold hp_change. destruct (PrimFloat.eqb _ _); [intros H; inversion H; subst; apply same_lists_refl|].
+    set (s0 := emit (upd_unit s _) _).
+    destruct (pop_slot s0 LHP) as [sc s1] eqn:EP.
+    assert (E1 : same_lists s s1).
+    { eapply same_lists_trans; [|replace s1 with (snd (pop_slot s0 LHP)) by (rewrite EP; reflexivity); apply sl_pop_slot]. sl. }
+    match goal with |- match ?r with _ => _ end = _ -> _ => destruct r as [s2|] eqn:ER; [|discriminate] end.
+    assert (E2 : same_lists s s2).
+    { destruct sc; [eapply same_lists_trans; [exact E1|eapply GR; exact ER]|inversion ER; subst; exact E1]. }
+    destruct (get_unit (units (emit s2 _)) (uid u)) as [u'|]; [|intros H; inversion H; subst; eapply same_lists_trans; [exact E2|sl]].
+    destruct (ust u'); try (intros H; inversion H; subst; (eapply same_lists_trans; [exact E2|sl]));
+      (destruct (PrimFloat.ltb 0 n); intros H; inversion H; subst; (eapply same_lists_trans; [exact E2|sl])).
+  Qed.
+  Lemma sl_set_hp R (GR : sl_runner R) s id a s' : set_hp cfg R s id a = Some s' -> same_lists s s'.
+  Proof. unfold set_hp. destruct (get_unit _ _); [apply sl_hp_change; exact GR|intros H; inversion H; subst; apply same_lists_refl]. Qed.
+  Lemma sl_damage_hp R (GR : sl_runner R) s id src d s' : damage_hp cfg R s id src d = Some s' -> same_lists s s'.
+  Proof. unfold damage_hp. destruct (get_unit _ _); [apply sl_hp_change; exact GR|intros H; inversion H; subst; apply same_lists_refl]. Qed.
+
   Lemma sl_do_hits R (GR : sl_runner R) : forall ts s self dmg s',
     do_hits cfg R s self dmg ts = Some s' -> same_lists s s'.
   Proof.
     induction ts as [|d ts IH]; intros s self dmg s' H; cbn [do_hits] in H.
     - inversion H; subst. apply same_lists_refl.
-    - destruct (pop_slot _ LHitEnd) as [sc s5] eqn:EP.
+    - set (s2 := emit s [VHitStart self d]) in *.
+      destruct (damage_hp cfg R s2 d self dmg) as [s3|] eqn:ED; [|discriminate].
+      set (s4 := record_hit s3 d dmg) in *.
+      destruct (pop_slot s4 LHitEnd) as [sc s5] eqn:EP.
       match type of H with match ?r with _ => _ end = _ => destruct r as [s6|] eqn:ER; [|discriminate] end.
       apply IH in H.
-      set (s2 := emit s [VHitStart self d]) in *.
-      set (s3 := damage_hp s2 d self dmg) in *.
-      set (s4 := record_hit s3 d dmg) in *.
       assert (E5 : same_lists s s5).
       { assert (A : same_lists s s2) by sl.
-        assert (B : same_lists s2 s3) by apply sl_damage_hp.
+        assert (B : same_lists s2 s3) by (eapply sl_damage_hp; eassumption).
         assert (C : same_lists s3 s4) by apply sl_record_hit.
         assert (D : same_lists s4 s5).
         { replace s5 with (snd (pop_slot s4 LHitEnd)) by (rewrite EP; reflexivity). apply sl_pop_slot. }
@@ -78,7 +86,7 @@ Section Lists.
       eapply same_lists_trans; [|eapply sl_do_hits; eassumption].
       destruct (in_attack s); [sl|]. destruct qualified; sl.
     - destruct lm; [discriminate|]. inversion H; subst. apply sl_end_attack.
-    - destruct (get_unit _ _); inversion H; subst; [apply sl_set_hp|sl].
+    - destruct (get_unit _ _); [eapply sl_set_hp; eassumption|inversion H; subst; sl].
     - destruct (_ <=? _); inversion H; subst; sl.
     - destruct (_ <=? _); inversion H; subst; sl.
     - inversion H; subst. apply sl_mod_energy.
@@ -183,45 +191,147 @@ Proof.
   destruct (uid x =? id) eqn:E; [intros H; inversion H; subst; apply Z.eqb_eq; exact E|exact IH].
 Qed.
 
-(* an HP change never changes the state of a dead unit, nor of any other unit than its target *)
-Theorem hp_change_dead_final s u newr dmg src id :
-  get_unit (units s) (uid u) = Some u ->
-  state_of s id = Some Dead -> state_of (hp_change s u newr dmg src) id = Some Dead.
+(* no content can bring a dead unit back: every script, every listener nesting *)
+Definition dead_mono (s s' : sim) : Prop := forall id, state_of s id = Some Dead -> state_of s' id = Some Dead.
+Lemma dm_refl s : dead_mono s s. Proof. intros id H; exact H. Qed.
+Lemma dm_trans a b c : dead_mono a b -> dead_mono b c -> dead_mono a c.
+Proof. intros H1 H2 id H. apply H2, H1, H. Qed.
+
+Lemma dm_units s s' : units s' = units s -> dead_mono s s'.
+Proof. intros E id H. unfold state_of in *. rewrite E. exact H. Qed.
+
+(* replacing a unit by one with the same id that is dead whenever the old one was *)
+Lemma dm_upd s u : (forall u0, get_unit (units s) (uid u) = Some u0 -> ust u0 = Dead -> ust u = Dead) ->
+  dead_mono s (upd_unit s u).
 Proof.
-  intros Hu Hd. unfold hp_change. destruct (PrimFloat.eqb _ _); [exact Hd|].
-  assert (Hother : forall u', uid u' = uid u -> id <> uid u -> forall evs,
-            state_of (emit (upd_unit s u') evs) id = Some Dead).
-  { intros u' Hid Hne evs. unfold state_of in *. cbn. rewrite get_put_other by congruence. exact Hd. }
-  destruct (Z.eq_dec id (uid u)) as [->|Hne].
-  - (* the target itself is dead *)
-    unfold state_of in Hd. rewrite Hu in Hd. inversion Hd as [Hst]. rewrite Hst.
-    unfold state_of. cbn. rewrite (get_put_same' _ _ (uid u)) by (cbn; eauto). cbn. reflexivity.
-  - destruct (ust u).
-    + destruct (PrimFloat.ltb 0 newr).
-      * unfold state_of in *. cbn. rewrite get_put_other by (cbn; congruence).
-        rewrite get_put_other by (cbn; congruence). exact Hd.
-      * unfold state_of in *. cbn. rewrite get_put_other by (cbn; congruence).
-        rewrite get_put_other by (cbn; congruence). exact Hd.
-    + destruct (PrimFloat.ltb 0 newr).
-      * unfold state_of in *. cbn. rewrite get_put_other by (cbn; congruence).
-        rewrite get_put_other by (cbn; congruence). exact Hd.
-      * unfold state_of in *. cbn. rewrite get_put_other by (cbn; congruence).
-        rewrite get_put_other by (cbn; congruence). exact Hd.
-    + apply Hother; auto.
+  intros Hk id H. unfold state_of in *. cbn. destruct (Z.eq_dec id (uid u)) as [->|Hne].
+  - destruct (get_unit (units s) (uid u)) as [u0|] eqn:E; [|discriminate].
+    inversion H as [Hst]. rewrite (get_put_same' _ _ (uid u)) by eauto. rewrite (Hk u0 eq_refl Hst), Hst. reflexivity.
+  - rewrite get_put_other by exact Hne. exact H.
 Qed.
 
-(* a unit whose HP reaches zero without a revive effect is Dead at once; with one it is Limbo *)
-Theorem hp_zero_state s u dmg src :
-  get_unit (units s) (uid u) = Some u -> ust u = Alive -> PrimFloat.eqb (uhp u) 0 = false ->
-  PrimFloat.ltb 0 0 = false ->
-  state_of (hp_change s u 0 dmg src) (uid u) = Some (if urev u then Limbo else Dead).
+Lemma dm_set_energy s id a : dead_mono s (set_energy s id a).
 Proof.
-  intros Hu Ha Hne Hz. unfold hp_change. rewrite Hne, Ha, Hz.
-  unfold state_of. cbn. rewrite (get_put_same' _ _ (uid u)).
-  - reflexivity.
-  - reflexivity.
-  - eexists. apply (get_put_same' _ _ (uid u)); [reflexivity|eauto].
+  unfold set_energy. destruct (get_unit (units s) id) as [u|] eqn:E; [|apply dm_refl].
+  destruct (PrimFloat.eqb _ _); [apply dm_refl|].
+  match goal with |- dead_mono _ (emit (upd_unit _ ?U) _) => eapply dm_trans; [apply (dm_upd s U)|apply dm_units; reflexivity] end.
+  cbn. intros u0 H0 Hd. rewrite (get_unit_id _ _ _ E) in H0. congruence.
 Qed.
+Lemma dm_mod_energy s id a : dead_mono s (mod_energy_fixed s id a).
+Proof. unfold mod_energy_fixed. destruct (get_unit _ _); [apply dm_set_energy|apply dm_refl]. Qed.
+Lemma dm_mod_sp s a : dead_mono s (mod_sp s a).
+Proof. unfold mod_sp. destruct (_ =? _); apply dm_units; reflexivity. Qed.
+Lemma dm_record_hit s d t : dead_mono s (record_hit s d t).
+Proof. unfold record_hit. destruct (get_unit _ _); apply dm_units; reflexivity. Qed.
+Lemma dm_pop_slot s x : dead_mono s (snd (pop_slot s x)).
+Proof. unfold pop_slot. destruct (nth _ _ _); apply dm_units; reflexivity. Qed.
+Lemma dm_end_attack s : dead_mono s (end_attack s).
+Proof. unfold end_attack. destruct (in_attack s) as [[? ?]|]; apply dm_units; reflexivity. Qed.
+
+Section DeadFinal.
+  Variable cfg : config.
+  Definition dm_runner (R : runner) : Prop := forall s self p sc s', R s self p sc = Some s' -> dead_mono s s'.
+
+  Lemma dm_hp_change R (GR : dm_runner R) s u n d src s' :
+    get_unit (units s) (uid u) = Some u -> hp_change cfg R s u n d src = Some s' -> dead_mono s s'.
+  Proof.
+    intros Hu. unfold hp_change. destruct (PrimFloat.eqb _ _); [intros H; inversion H; subst; apply dm_refl|].
+    set (u1 := with_hp u n (ust u) (if d then src else ulast u)).
+    set (s0 := emit (upd_unit s u1) _).
+    assert (E0 : dead_mono s s0).
+    { eapply dm_trans; [apply (dm_upd s u1)|apply dm_units; reflexivity].
+      cbn. intros u0 H0 Hd. rewrite Hu in H0. congruence. }
+    destruct (pop_slot s0 LHP) as [sc s1] eqn:EP.
+    assert (E1 : dead_mono s s1).
+    { eapply dm_trans; [exact E0|]. replace s1 with (snd (pop_slot s0 LHP)) by (rewrite EP; reflexivity). apply dm_pop_slot. }
+    match goal with |- match ?r with _ => _ end = _ -> _ => destruct r as [s2|] eqn:ER; [|discriminate] end.
+    assert (E2 : dead_mono s s2).
+    { destruct sc; [eapply dm_trans; [exact E1|eapply GR; exact ER]|inversion ER; subst; exact E1]. }
+    set (s3 := emit s2 _).
+    assert (E3 : dead_mono s s3) by (eapply dm_trans; [exact E2|apply dm_units; reflexivity]).
+    destruct (get_unit (units s3) (uid u)) as [u'|] eqn:EU; [|intros H; inversion H; subst; exact E3].
+    assert (EU' : get_unit (units s3) (uid u') = Some u') by (rewrite (get_unit_id _ _ _ EU); exact EU).
+    assert (Hst : forall st, ust u' <> Dead -> dead_mono s3 (upd_unit s3 (with_state u' st))).
+    { intros st Hn. apply dm_upd. intros u0 H0 Hd. change (uid (with_state u' st)) with (uid u') in H0.
+      rewrite EU' in H0. inversion H0; subst. contradiction. }
+    destruct (ust u') eqn:ES; try (intros H; inversion H; subst; exact E3);
+      (destruct (PrimFloat.ltb 0 n); intros H; inversion H; subst; (eapply dm_trans; [exact E3|]);
+       [apply Hst; congruence
+       |eapply dm_trans; [apply Hst; congruence|apply dm_units; reflexivity]]).
+  Qed.
+
+  Lemma dm_set_hp R (GR : dm_runner R) s id a s' : set_hp cfg R s id a = Some s' -> dead_mono s s'.
+  Proof.
+    unfold set_hp. destruct (get_unit (units s) id) as [u|] eqn:E; [|intros H; inversion H; subst; apply dm_refl].
+    apply dm_hp_change; [exact GR|]. rewrite (get_unit_id _ _ _ E). exact E.
+  Qed.
+  Lemma dm_damage_hp R (GR : dm_runner R) s id src d s' : damage_hp cfg R s id src d = Some s' -> dead_mono s s'.
+  Proof.
+    unfold damage_hp. destruct (get_unit (units s) id) as [u|] eqn:E; [|intros H; inversion H; subst; apply dm_refl].
+    apply dm_hp_change; [exact GR|]. rewrite (get_unit_id _ _ _ E). exact E.
+  Qed.
+
+  Lemma dm_do_hits R (GR : dm_runner R) : forall ts s self dmg s',
+    do_hits cfg R s self dmg ts = Some s' -> dead_mono s s'.
+  Proof.
+    induction ts as [|d ts IH]; intros s self dmg s' H; cbn [do_hits] in H.
+    - inversion H; subst. apply dm_refl.
+    - set (s2 := emit s [VHitStart self d]) in *.
+      destruct (damage_hp cfg R s2 d self dmg) as [s3|] eqn:ED; [|discriminate].
+      set (s4 := record_hit s3 d dmg) in *.
+      destruct (pop_slot s4 LHitEnd) as [sc s5] eqn:EP.
+      match type of H with match ?r with _ => _ end = _ => destruct r as [s6|] eqn:ER; [|discriminate] end.
+      apply IH in H.
+      assert (E5 : dead_mono s s5).
+      { eapply dm_trans; [apply (dm_units s s2); reflexivity|].
+        eapply dm_trans; [eapply dm_damage_hp; eassumption|].
+        eapply dm_trans; [apply dm_record_hit|].
+        replace s5 with (snd (pop_slot s4 LHitEnd)) by (rewrite EP; reflexivity). apply dm_pop_slot. }
+      assert (E6 : dead_mono s s6).
+      { destruct sc; [eapply dm_trans; [exact E5|eapply GR; exact ER]|inversion ER; subst; exact E5]. }
+      eapply dm_trans; [exact E6|]. eapply dm_trans; [|exact H]. apply dm_units; reflexivity.
+  Qed.
+
+  Lemma dm_exec_op R (GR : dm_runner R) lm s self p o s' :
+    exec_op cfg R lm s self p o = Some s' -> dead_mono s s'.
+  Proof.
+    intros H. destruct o; cbn [exec_op] in H.
+    - destruct (lm && qualified); [discriminate|].
+      match type of H with (if ?c then _ else _) = _ => destruct c end; [inversion H; subst; apply dm_refl|].
+      eapply dm_trans; [|eapply dm_do_hits; eassumption].
+      destruct (in_attack s); [apply dm_refl|]. destruct qualified; apply dm_units; reflexivity.
+    - destruct lm; [discriminate|]. inversion H; subst. apply dm_end_attack.
+    - destruct (get_unit _ _); [eapply dm_set_hp; eassumption|inversion H; subst; apply dm_refl].
+    - destruct (_ <=? _); inversion H; subst; apply dm_units; reflexivity.
+    - destruct (_ <=? _); inversion H; subst; apply dm_units; reflexivity.
+    - inversion H; subst. apply dm_mod_energy.
+    - inversion H; subst. apply dm_mod_sp.
+    - destruct (get_unit (units s) _) as [u|] eqn:E; [|inversion H; subst; apply dm_refl].
+      destruct (existsb _ _); inversion H; subst; [apply dm_refl|].
+      apply dm_upd. cbn. intros u0 H0 Hd. rewrite (get_unit_id _ _ _ E) in H0. congruence.
+    - destruct (get_unit (units s) _) as [u|] eqn:E; inversion H; subst; [|apply dm_refl].
+      apply dm_upd. cbn. intros u0 H0 Hd. rewrite (get_unit_id _ _ _ E) in H0. congruence.
+    - destruct (Turn.step _ _ _). inversion H; subst. apply dm_units; reflexivity.
+    - destruct (get_unit (units s) _) as [u|] eqn:E; inversion H; subst; [|apply dm_refl].
+      apply dm_upd. cbn. intros u0 H0 Hd. rewrite (get_unit_id _ _ _ E) in H0. congruence.
+    - inversion H; subst. apply dm_units; reflexivity.
+  Qed.
+
+  Lemma dm_exec_list R (GR : dm_runner R) lm : forall ops s self p s',
+    exec_list cfg R lm s self p ops = Some s' -> dead_mono s s'.
+  Proof.
+    induction ops as [|o ops IH]; intros s self p s' H; cbn [exec_list] in H.
+    - inversion H; subst. apply dm_refl.
+    - destruct (exec_op cfg R lm s self p o) as [s1|] eqn:E; [|discriminate].
+      eapply dm_trans; [eapply dm_exec_op; eassumption|eapply IH; exact H].
+  Qed.
+
+  Theorem dead_is_final : forall fuel lm, dm_runner (exec_ops cfg fuel lm).
+  Proof.
+    induction fuel as [|f IH]; intros lm s self p sc s' H; [discriminate|].
+    cbn [exec_ops] in H. eapply dm_exec_list; [apply IH|exact H].
+  Qed.
+End DeadFinal.
 
 (* ------------------------------------------------------------------ *)
 (* The dead do not act                                                  *)
